@@ -163,6 +163,17 @@ CLAIMED = {
         note="Model bugs (unordered collection, matrix not re-zeroed) are rejected by TLC (self-test). Real-pool traces that the model "
              "does not explain but whose matrix is bit-identical are recorded as impl_drift, not as violations (the property is about "
              "the result)."),
+    "C02": dict(
+        engine="tlc+trace", design_ref="DESIGN.md §3 C02",
+        technique="TLA+ spec Tomo.tla: mode gen enumerates integer PSD covariance matrices C = G G^T with unimodular off-axis block (plus the duplicate-sensor family); the real reconstructor's output on each is recorded (rounded to integers, residual-checked) and mode val decides shape, normal equations R C_off,off = C_on,off, optimality against all unit perturbations and the selector clause exactly in integer arithmetic, one total verdict per case",
+        text="2460 integer covariance matrices (600 sampled in quick, all duplicate-sensor members always) with 2 on-axis and 2 or 4 "
+             "off-axis slopes: the real function is called twice on the same array and once through the class after the object's "
+             "matrix changed (no state, argument intact), and every returned reconstructor is judged by TLC in exact arithmetic. "
+             "Auxiliary float checks: conditioning 1e-3 and 0.5 on exactly singular (duplicated off-axis sensor) matrices - normal "
+             "equations on the retained singular subspace; end to end through the real covariance builder with the on-axis sensor "
+             "duplicating each of three off-axis sensors; a rebuild with the science direction moved, same conditioning.",
+        note="Optimality for arbitrary real PSD matrices follows from the normal equations (a theorem, not re-proved here); TLC "
+             "decides it on the integer family only."),
 }
 
 NOT_APPLICABLE = {
